@@ -483,7 +483,11 @@ void dataset_t::check(tensor_size_t feature) const
 
 void dataset_t::check(indices_cmap_t samples) const
 {
-    critical(samples.min() < 0 || samples.max() >= m_datasource.samples(),
-             "dataset: invalid sample range, expecting in [0, ", m_datasource.samples(), "), got ", "[", samples.min(),
-             ", ", samples.max(), ")!");
+    // NB: the minimum and the maximum are not defined for an empty list of samples (nothing to check in this case)!
+    if (samples.size() > 0)
+    {
+        critical(samples.min() < 0 || samples.max() >= m_datasource.samples(),
+                 "dataset: invalid sample range, expecting in [0, ", m_datasource.samples(), "), got ", "[",
+                 samples.min(), ", ", samples.max(), ")!");
+    }
 }
